@@ -165,11 +165,13 @@ class DLISFile:
                 ]
             )
 
+        # number of logical records to be generated (see DLISFile.generator)
         n = 0
         for logical_file in self.logical_files:
             # each logical file keeps its own EFLR sets (logical files are independent from each other)
-            for eflr_set_type in list(logical_file._eflr_sets):
-                n += len(list(logical_file._eflr_sets.get_all_items_for_set_type(eflr_set_type)))
+            n += 1  # file header
+            for eflr_set_dict in logical_file._eflr_sets.values():
+                n += len(eflr_set_dict)  # one record per EFLR set (not per item)
 
         for idx_lf, logical_file in enumerate(self.logical_files):
             for mfd in multi_frame_data_objects[idx_lf]:
